@@ -185,6 +185,72 @@ func introCase(r *rng.R, opt genOpt) sexp.Node {
 		sexp.T("data", jsonSexp(data)), sexp.T("errors", sexp.Int(nerr)))
 }
 
+func verdict(doc string, s *schema.Schema, fs []string) (v string) {
+	defer func() {
+		if e := recover(); e != nil {
+			v = "panic" // validator crashes are C03's subject; such documents are not compared
+		}
+	}()
+	_, errs := graphql.ParseAndValidate(doc, s, schema.NewFeatureSet(fs...))
+	if len(errs) == 0 {
+		return "accepted"
+	}
+	return "rejected"
+}
+
+// rebuildCase: definition -> introspection JSON -> SchemaData -> GetSchemaDefinition ->
+// schema.New, then generated documents validated against both schemas.
+func rebuildCase(r *rng.R, opt genOpt, ndocs int) sexp.Node {
+	gs := genSchema(r, opt)
+	fs := features(r)
+	if opt.NoGating {
+		fs = []string{}
+	}
+	_, s := mustSchema(gs)
+	resp := graphql.Execute(&graphql.Request{Context: context.Background(), Schema: s, Query: string(introspection.Query),
+		Features: schema.NewFeatureSet(fs...)})
+	raw, err := json.Marshal(resp)
+	if err != nil {
+		panic(err)
+	}
+	var generic struct {
+		Data interface{} `json:"data"`
+	}
+	if err := json.Unmarshal(raw, &generic); err != nil {
+		panic(err)
+	}
+	var typed struct {
+		Data struct {
+			Schema introspection.SchemaData `json:"__schema"`
+		}
+	}
+	if err := json.Unmarshal(raw, &typed); err != nil {
+		panic(err)
+	}
+	rebuilt := sexp.T("error")
+	var s2 *schema.Schema
+	if def2, err := typed.Data.Schema.GetSchemaDefinition(); err == nil {
+		abs, dups := absDef(def2)
+		if s2, err = schema.New(def2); err != nil {
+			rebuilt = sexp.T("rejected", abs, sexp.Str(err.Error()))
+			s2 = nil
+		} else {
+			rebuilt = sexp.T("ok", abs, names(dups))
+		}
+	}
+	docs := []sexp.Node{}
+	if s2 != nil {
+		for i := 0; i < ndocs; i++ {
+			doc, picky := genDoc(r, gs, fs)
+			docs = append(docs, sexp.T("doc", sexp.Str(doc), sexp.Sym(verdict(doc, s, fs)), sexp.Sym(verdict(doc, s2, fs)), sexp.Bool(picky)))
+		}
+	}
+	return sexp.T("case", sexp.Sym("rebuild"),
+		sexp.T("schema", gs.sexp()), sexp.T("features", names(fs)),
+		sexp.T("data", jsonSexp(generic.Data)), sexp.T("errors", sexp.Int(len(resp.Errors))),
+		sexp.T("rebuilt", rebuilt), sexp.T("docs", docs...))
+}
+
 func main() {
 	hx.Main(func(h *hx.H) {
 		n := 1500
@@ -193,12 +259,26 @@ func main() {
 		}
 		// small definitions first
 		for i := 0; i < n/10; i++ {
-			h.Case(func(r *rng.R) sexp.Node { return introCase(r, genOpt{Size: 0}) })
+			i := i
+			h.Case(func(r *rng.R) sexp.Node { return introCase(r, genOpt{Size: 0, NoBeyond: i%7 != 3, Plain: i%11 != 4}) })
 		}
 		for i := 0; i < n; i++ {
 			i := i
 			h.Case(func(r *rng.R) sexp.Node {
-				return introCase(r, genOpt{Size: 1 + i%3, Hostile: i%6 == 5})
+				// most definitions stay within the hypotheses of the description (wrapper chains the
+				// query sees to the end, defaults the lexer can read back); every 7th goes beyond
+				// the query depth, every 11th has astral / U+FFFD strings, every 6th ill-typed defaults
+				return introCase(r, genOpt{Size: 1 + i%3, Hostile: i%6 == 5, NoBeyond: i%7 != 3, Plain: i%11 != 4})
+			})
+		}
+		nr := 400
+		if h.Thorough() {
+			nr = 8000
+		}
+		for i := 0; i < nr; i++ {
+			i := i
+			h.Case(func(r *rng.R) sexp.Node {
+				return rebuildCase(r, genOpt{Size: i % 4, NoBeyond: i%9 != 5, Plain: i%11 != 4, NoGating: i%3 == 0}, 30)
 			})
 		}
 	})
